@@ -201,6 +201,8 @@ def phasor_chain(case, ctx):
         if w_new is w:
             raise Violation("C07.multiply.identity", "multiply returned the input wavefront object")
         w = w_new
+        if tuple(w.shape) != () and any(f.data.size == 1 for f in w.data):
+            raise Skip("single_sample_intermediate_field(known)")
         if model is not None:
             with lentil_call("C07.field", f"Wavefront.field after plane {i} "
                                           f"({d['amp_form']}/{d['opd_form']}/{d['mask_form']})"):
